@@ -5,7 +5,7 @@
 (* (sent[r], one-character strings), and rest[r] = what was still readable from input r's Body after the last call.   *)
 (* TLC folds L1 over the calls: every validation reports the one-shot verdict (ResponseCheck!Accepts of that          *)
 (* response), every read returns the next bytes of the body supplied for that response, and the rest is the rest.     *)
-EXTENDS BodyKeep, ResponseCheck, FindingsC08, Json, CSV
+EXTENDS BodyKeep, ResponseCheck, Json, CSV
 
 OneKind == {"read_ok"}
 Trace == ndJsonDeserialize("trace.ndjson")
